@@ -29,3 +29,315 @@ mod f09_write_error_swallowed {
         assert_eq!(sink.calls, 1, "sink called {} times", sink.calls);
     }
 }
+
+#[cfg(test)]
+mod common {
+    pub use flatty::{flat, flat_vec, prelude::*, portable::{le, Bool}, AlignedBytes, Error, error::ErrorKind, FlatString, FlatVec, FlexVec};
+    pub fn aligned(bytes: &[u8], align: usize) -> AlignedBytes { AlignedBytes::from_slice(bytes, align) }
+}
+
+/// Finding 1 / 16 (C01, C10, C06): FlexVec offset chain walk is not bounded by the remaining bytes.
+#[cfg(test)]
+mod f01_flex_next_unbounded {
+    use super::common::*;
+    #[test]
+    fn offset_beyond_slice_is_an_error_not_a_panic() {
+        let r = std::panic::catch_unwind(|| FlexVec::<u8, u8>::validate(&[5, 0]).is_err());
+        assert_eq!(r.ok(), Some(true), "validate(&[5,0]) must return Err");
+    }
+    #[test]
+    fn short_last_slot_is_an_error_not_a_panic() {
+        // FlexVec<u32,u8>: OFFSET_SIZE 4. first item extent 8, then a last-item marker with only 2 bytes left
+        let b = aligned(&[8, 0, 0, 0, 1, 0, 0, 0, 0xff, 0], 4);
+        let r = std::panic::catch_unwind(|| FlexVec::<u32, u8>::validate(&b).is_err());
+        assert_eq!(r.ok(), Some(true));
+    }
+    #[test]
+    fn offset_smaller_than_slot_is_a_content_error() {
+        // OFFSET_SIZE = 4 for FlexVec<u32,u8>; next = 2 < 4 can never become valid with more bytes
+        let b = aligned(&[2, 0, 0, 0, 0, 0, 0, 0], 4);
+        let e = FlexVec::<u32, u8>::validate(&b).unwrap_err();
+        assert_ne!(e.kind, ErrorKind::InsufficientSize, "a too small offset is a content error: {:?}", e);
+    }
+}
+
+/// Finding 3 (C01): division by the element size for zero-sized elements.
+#[cfg(test)]
+mod f03_zst_elements {
+    use super::common::*;
+    #[test]
+    fn vec_of_unit_validates_without_panic() {
+        let r = std::panic::catch_unwind(|| FlatVec::<(), u8>::validate(&[0]).is_ok());
+        assert_eq!(r.ok(), Some(true));
+    }
+}
+
+/// Finding 4 / 18 (C02, C03): enum payload validated / initialised over more bytes than the view covers.
+#[cfg(test)]
+mod f04_enum_payload_range {
+    use super::common::*;
+    #[flat(sized = false)]
+    enum UE { A, B(u32, FlatVec<u8, u16>) }
+    #[test]
+    fn accepted_image_has_len_within_capacity() {
+        // tag=1 | pad | u32 | len=4 | 4 data bytes ; total 14 bytes, ALIGN 4 -> view payload floor(14-4,4)=8 -> vec sees 4 bytes -> capacity 2
+        let mut img = vec![1u8, 0, 0, 0, 9, 9, 9, 9, 4, 0, 1, 2, 3, 4];
+        let b = aligned(&img, 4);
+        match UE::from_bytes(&b) {
+            Ok(v) => match v.as_ref() { UERef::B(_, vec) => assert!(vec.len() <= vec.capacity(), "len {} > capacity {}", vec.len(), vec.capacity()), _ => panic!() },
+            Err(_) => (),
+        }
+        img.clear();
+    }
+    #[test]
+    fn emplaced_value_validates() {
+        let mut b = AlignedBytes::new(19, 4);
+        match UE::new_in_place(&mut b, UEInitB(7, flat_vec![1u8, 2, 3, 4, 5, 6, 7, 8])) {
+            Ok(v) => { let bytes = v.as_bytes().to_vec(); let c = aligned(&bytes, 4); assert!(UE::validate(&c).is_ok(), "own bytes do not validate"); }
+            Err(e) => assert_eq!(e.kind, ErrorKind::InsufficientSize),
+        }
+    }
+}
+
+/// Finding 4b (C02): FlexVec validated over more bytes than its view covers.
+#[cfg(test)]
+mod f04b_flex_range {
+    use super::common::*;
+    #[test]
+    fn accepted_flexvec_items_are_consistent() {
+        let b = aligned(&[0xff, 0xff, 4, 1, 2, 3, 4], 2);
+        if let Ok(v) = FlexVec::<FlatVec<u8, u8>, u16>::from_bytes(&b[..7]) {
+            let it = v.iter().next().unwrap();
+            assert!(it.len() <= it.capacity(), "len {} > capacity {}", it.len(), it.capacity());
+        }
+    }
+}
+
+/// Finding 5 (C02): c-like enum with explicit discriminants validated against the variant count.
+#[cfg(test)]
+mod f05_explicit_discriminants {
+    use super::common::*;
+    #[flat]
+    #[derive(Debug, PartialEq, Eq)]
+    enum CL { A = 1, B = 5 }
+    #[test]
+    fn accept_set_is_the_declared_discriminants() {
+        assert!(CL::from_bytes(&[0]).is_err(), "tag 0 names no variant");
+        assert!(CL::from_bytes(&[1]).is_ok());
+        assert!(CL::from_bytes(&[5]).is_ok(), "tag 5 is variant B");
+        assert!(CL::from_bytes(&[2]).is_err());
+    }
+}
+
+/// Finding 6 / 17 (C04, C05, C07, C10): unsized struct view may exceed its slice.
+#[cfg(test)]
+mod f06_struct_view {
+    use super::common::*;
+    #[flat(sized = false)]
+    struct US { a: u64, v: FlatVec<u8, u16> }
+    #[test]
+    fn view_never_exceeds_slice() {
+        for n in 0..40usize {
+            let mut b = AlignedBytes::new(n.max(1), 8);
+            b.iter_mut().for_each(|x| *x = 0);
+            if let Ok(v) = US::from_bytes(&b[..n]) {
+                assert!(core::mem::size_of_val(v) <= n, "slice {} bytes, size_of_val {}", n, core::mem::size_of_val(v));
+                assert!(v.size() <= n, "slice {} bytes, size() {}", n, v.size());
+            }
+        }
+    }
+}
+
+/// Finding 7 (C05): FlatVec/FlatString size() is not rounded to the alignment.
+#[cfg(test)]
+mod f07_vec_size_rounding {
+    use super::common::*;
+    #[test]
+    fn remap_of_size_bytes_succeeds() {
+        let mut b = AlignedBytes::new(16, 4);
+        let v = FlatVec::<u8, u32>::new_in_place(&mut b, flat_vec![7u8]).unwrap();
+        let n = v.size();
+        assert_eq!(n % 4, 0, "size() {} is not a multiple of ALIGN", n);
+        let again = FlatVec::<u8, u32>::from_bytes(&b[..n]).unwrap();
+        assert_eq!(again.as_slice(), &[7u8]);
+        let mut b = AlignedBytes::new(16, 4);
+        let s = FlatString::<u32>::new_in_place(&mut b, flatty::string::FromStr("abcde")).unwrap();
+        assert_eq!(s.size() % 4, 0);
+    }
+}
+
+/// Finding 8 (C05): FlexVec::size drops one slot.
+#[cfg(test)]
+mod f08_flex_size {
+    use super::common::*;
+    #[test]
+    fn size_covers_the_last_item() {
+        let mut b = AlignedBytes::new(64, 4);
+        let v = FlexVec::<FlatVec<i32, u16>, u16>::default_in_place(&mut b).unwrap();
+        v.push_default().unwrap().push_slice(&[1, 2]).unwrap();
+        let n = v.size();
+        assert_eq!(n, 4 + 4 + 8, "slot + vec header + 2 items");
+        let again = FlexVec::<FlatVec<i32, u16>, u16>::from_bytes(&b[..n]).unwrap();
+        assert_eq!(again.len(), 1);
+        assert_eq!(again.iter().next().unwrap().as_slice(), &[1, 2]);
+    }
+}
+
+/// Finding 10 (C12): pop/truncate keep one item too many; truncate(len) panics.
+#[cfg(test)]
+mod f10_flex_truncate {
+    use super::common::*;
+    fn make(b: &mut AlignedBytes) -> &mut FlexVec<FlatVec<i32, u16>, u16> {
+        let v = FlexVec::<FlatVec<i32, u16>, u16>::default_in_place(b).unwrap();
+        for i in 0..3 { v.push_default().unwrap().push_slice(&[i]).unwrap(); }
+        v
+    }
+    #[test]
+    fn pop_removes_the_last_item() {
+        let mut b = AlignedBytes::new(128, 4);
+        let v = make(&mut b);
+        v.pop().unwrap();
+        assert_eq!(v.len(), 2);
+        assert_eq!(v.iter().map(|x| x.as_slice()[0]).collect::<Vec<_>>(), vec![0, 1]);
+    }
+    #[test]
+    fn truncate_keeps_min_n_len() {
+        for n in 0..6usize {
+            let mut b = AlignedBytes::new(128, 4);
+            let v = make(&mut b);
+            let r = std::panic::catch_unwind(std::panic::AssertUnwindSafe(|| { v.truncate(n); v.len() }));
+            assert_eq!(r.ok(), Some(n.min(3)), "truncate({})", n);
+        }
+    }
+}
+
+/// Finding 11 (C13): a refused FlexVec::push modifies the vector.
+#[cfg(test)]
+mod f11_flex_push_failure {
+    use super::common::*;
+    #[test]
+    fn refused_push_leaves_the_vector_unchanged() {
+        let mut b = AlignedBytes::new(4 + 4 + 4 + 2, 4);
+        b.iter_mut().for_each(|x| *x = 0xee);
+        let v = FlexVec::<FlatVec<i32, u16>, u16>::default_in_place(&mut b).unwrap();
+        v.push_default().unwrap().push_slice(&[5]).unwrap();
+        let before = v.as_bytes().to_vec();
+        assert!(v.push_default().is_err());
+        let after = v.as_bytes().to_vec();
+        assert_eq!(before, after, "bytes changed by a refused push");
+        let r = std::panic::catch_unwind(std::panic::AssertUnwindSafe(|| v.len()));
+        assert_eq!(r.ok(), Some(1));
+    }
+}
+
+/// Finding 13 (C18): enum Init writes the tag before the per-variant size check.
+#[cfg(test)]
+mod f13_tag_before_size_gate {
+    use super::common::*;
+    #[flat(sized = false, default = true)]
+    enum UE { #[default] A, B(u64, FlatVec<u8, u16>) }
+    #[test]
+    fn failed_assign_leaves_a_valid_value() {
+        let mut b = AlignedBytes::new(8, 8);
+        let v = UE::default_in_place(&mut b).unwrap();
+        let e = v.assign_in_place(UEInitB(1, flat_vec![1u8])).err().unwrap();
+        assert_eq!(e.kind, ErrorKind::InsufficientSize);
+        assert!(UE::validate(&b).is_ok(), "value left invalid after a refused assignment");
+    }
+}
+
+/// Finding 14 (C18): FromArray / FromStr reset the target before the room check.
+#[cfg(test)]
+mod f14_check_before_reset {
+    use super::common::*;
+    #[test]
+    fn too_little_room_leaves_target_unchanged() {
+        let mut b = AlignedBytes::new(2 + 4, 2);
+        let v = FlatVec::<u8, u16>::new_in_place(&mut b, flat_vec![1u8, 2, 3]).unwrap();
+        assert!(v.assign_in_place(flat_vec![9u8; 5]).is_err());
+        assert_eq!(v.as_slice(), &[1, 2, 3], "vector was emptied by a refused assignment");
+        let mut b = AlignedBytes::new(2 + 4, 2);
+        let s = FlatString::<u16>::new_in_place(&mut b, flatty::string::FromStr("abc")).unwrap();
+        assert!(s.assign_in_place(flatty::string::FromStr("too long")).is_err());
+        assert_eq!(s.as_str(), "abc");
+    }
+}
+
+/// Finding 15 (C19): element / item errors are not shifted by the element position.
+#[cfg(test)]
+mod f15_error_offsets {
+    use super::common::*;
+    #[flat(sized = false)]
+    struct S { a: u32, b: Bool, v: FlatVec<Bool, u8> }
+    #[test]
+    fn bad_bool_in_vec_is_reported_where_it_is() {
+        // a:0..4 b:4 v: len@5, data@6..  -> second element at 7
+        let img = [0u8, 0, 0, 0, 1, 2, 1, 7];
+        let b = aligned(&img, 4);
+        assert_eq!(S::validate(&b).unwrap_err().pos, 7);
+    }
+    #[test]
+    fn bad_bool_in_array_is_reported_where_it_is() {
+        let e = <[Bool; 4]>::validate(&[0, 1, 0, 3]).unwrap_err();
+        assert_eq!(e.pos, 3);
+    }
+    #[test]
+    fn bad_item_in_flexvec_is_reported_where_it_is() {
+        // FlexVec<FlatVec<Bool,u8>,u8>: slot(1) [len(1) data..]
+        let img = [0xffu8, 2, 1, 9];
+        let e = FlexVec::<FlatVec<Bool, u8>, u8>::validate(&img).unwrap_err();
+        assert_eq!(e.pos, 3);
+    }
+}
+
+/// Finding 14c (C18): FlexVec FromIterator failing mid-way leaves an unterminated chain.
+#[cfg(test)]
+mod f14c_flex_from_iterator_failure {
+    use super::common::*;
+    #[test]
+    fn failed_from_iterator_leaves_a_valid_vector() {
+        type F = FlexVec<FlatVec<i32, u16>, u16>;
+        let mut b = AlignedBytes::new(4 + 4 + 8 + 4 + 4 + 4, 4);
+        b.iter_mut().for_each(|x| *x = 0x77);
+        let v = F::default_in_place(&mut b).unwrap();
+        let items = [flatty::vec::FromIterator(0..2), flatty::vec::FromIterator(0..100)];
+        assert!(v.assign_in_place(flatty::flex::FromIterator::new(items)).is_err());
+        assert!(F::validate(&b).is_ok(), "vector left invalid after a failed assignment");
+        let r = std::panic::catch_unwind(std::panic::AssertUnwindSafe(|| F::from_bytes(&b).unwrap().size()));
+        assert!(r.is_ok());
+    }
+}
+
+/// Finding 17 (C07, C10): consequence of finding 6 in the receiver: a read ending inside trailing padding.
+#[cfg(test)]
+mod f17_recv_padding {
+    use super::common::*;
+    use flatty_io::Receiver;
+    use std::io::{self, Read};
+    #[flat(sized = false)]
+    struct Msg { a: u64, v: FlatVec<u8, u16> }
+    struct Chunks { data: Vec<u8>, cuts: Vec<usize>, pos: usize }
+    impl Read for Chunks {
+        fn read(&mut self, b: &mut [u8]) -> io::Result<usize> {
+            if self.pos >= self.data.len() { return Ok(0); }
+            let n = if self.cuts.is_empty() { self.data.len() - self.pos } else { self.cuts.remove(0) };
+            let n = n.min(b.len()).min(self.data.len() - self.pos);
+            b[..n].copy_from_slice(&self.data[self.pos..self.pos + n]);
+            self.pos += n;
+            Ok(n)
+        }
+    }
+    #[test]
+    fn message_is_delivered_only_when_complete() {
+        let mut img = AlignedBytes::new(16, 8);
+        Msg::new_in_place(&mut img, MsgInit { a: 7, v: flat_vec![1u8, 2] }).unwrap();
+        let src = Chunks { data: img.to_vec(), cuts: vec![12, 4], pos: 0 };
+        let mut r = Receiver::<Msg, _>::io(src, 32);
+        let res = std::panic::catch_unwind(std::panic::AssertUnwindSafe(|| {
+            let g = r.recv().unwrap();
+            assert_eq!(g.a, 7);
+            assert_eq!(g.v.as_slice(), &[1, 2]);
+        }));
+        assert!(res.is_ok(), "receiver panicked");
+    }
+}
